@@ -6,3 +6,4 @@ RULE = "operations: reduce argmax argmin; " + fam_raops.RULE
 def run(R, tier, rng):
     fam_raops.run_family(R, tier, rng, set("reduce argmax argmin".split()))
     fam_ra2.run_c05(R, tier, rng)
+    fam_ra2.both_variants(lambda R_, t_, r_: fam_ra2.run_sequences(R_, t_, r_, 'reduce'))(R, tier, rng)
